@@ -145,7 +145,7 @@ static void script_sync_phase(void)
 						    ((const struct pdu_end_of_data_v1 *)(b))->retry_interval == E(k).retry && \
 						    ((const struct pdu_end_of_data_v1 *)(b))->expire_interval == E(k).expire) \
 						 : 1))                                                 \
-			       : 1))))
+			       : (E(k).type == SPEC_PDU_ROUTER_KEY ? ((const struct pdu_router_key *)(b))->flags == E(k).flags : 1)))))
 static int rtr_receive_pdu__store(struct rtr_socket *rtr_socket, void *pdu, const size_t pdu_len, const time_t timeout)
 __CPROVER_requires(__CPROVER_rw_ok(rtr_socket, sizeof(*rtr_socket)) && pdu_len >= 3248 && __CPROVER_rw_ok(pdu, 3248))
 __CPROVER_requires(rtr_socket->version <= 1 && __CPROVER_r_ok(rtr_socket->tr_socket, sizeof(struct tr_socket)))
